@@ -357,6 +357,12 @@ theorem moveHome (S : Segmenter) (U : UData) :
 
 macro_rules | `(tactic| lm_extra) => `(tactic| with_reducible apply Replays.moveHome)
 
+theorem moveToFirstPrint (S : Segmenter) (U : UData) :
+    Replays (LB.moveToFirstPrint S U) := by
+  unfold LB.moveToFirstPrint; lm_auto
+
+macro_rules | `(tactic| lm_extra) => `(tactic| with_reducible apply Replays.moveToFirstPrint)
+
 theorem moveEnd (S : Segmenter) (U : UData) :
     Replays (LB.moveEnd S U ) := by
   unfold LB.moveEnd; lm_auto
@@ -498,6 +504,7 @@ theorem Replays.run (S : Segmenter) (U : UData) (op : Op) : Replays (Op.run S U 
   case moveBufferStart => lm_auto
   case moveBufferEnd => lm_auto
   case moveHome => lm_auto
+  case moveToFirstPrint => lm_auto
   case moveEnd => lm_auto
   case isEndOfInput => lm_auto
   case delete n => lm_auto
@@ -559,6 +566,12 @@ theorem moveHome (S : Segmenter) (U : UData) :
   unfold LB.moveHome; lm_auto
 
 macro_rules | `(tactic| lm_extra) => `(tactic| with_reducible apply PosOnly.moveHome)
+
+theorem moveToFirstPrint (S : Segmenter) (U : UData) :
+    PosOnly (LB.moveToFirstPrint S U) := by
+  unfold LB.moveToFirstPrint; lm_auto
+
+macro_rules | `(tactic| lm_extra) => `(tactic| with_reducible apply PosOnly.moveToFirstPrint)
 
 theorem moveEnd (S : Segmenter) (U : UData) :
     PosOnly (LB.moveEnd S U ) := by
